@@ -60,8 +60,8 @@ def gen_ops(rng, cfg, nops, kmax=5, pmax=3, failing=0.0):
     ops = []
     pool = {}
     for _ in range(nops):
-        teams, regime = gen.gen_teams(rng, cfg["beta"], kmax=kmax, pmax=pmax,
-                                      regime=rng.choice(["typical", "wide", "mismatch", "equal_size", "huge_sigma", "identical", "round_numbers"]))
+        teams, regime = gen.gen_teams(rng, cfg["beta"], kmax=kmax, pmax=pmax, default_rating=(cfg["mu"], cfg["sigma"]),
+                                      regime=rng.choice(["typical", "wide", "mismatch", "equal_size", "huge_sigma", "identical", "round_numbers", "coincidences"]))
         if failing and rng.random() < failing:
             if str(cfg.get("gamma")).startswith("boom") and rng.random() < 0.5:
                 i = rng.randrange(len(teams))
